@@ -88,6 +88,92 @@ def gen_case(seed):
     }
 
 
+def _kind_of(model, p):
+    return None if p not in model else ("dir" if model[p] is None else "file")
+
+
+def gen_sequence(seed):
+    """3..7 high-level operations on ONE client connection, generated against a model of the
+    remote tree so that every operation is well-defined (no file-over-directory collisions, the
+    working directory is never removed)."""
+    rnd = random.Random(seed * 5237 + 11)
+    model = with_parents({"/w/x": None, "/w/keep.txt": b"keep", "/other/o": b"other"})
+    cwd = "/"
+    trees = [gen_tree(rnd) for _ in range(2)]
+    names = ["src", "folder1"]
+    ops = []
+
+    def spell(pabs):
+        if rnd.random() < 0.5 or cwd == "/":
+            return pabs if rnd.random() < 0.5 or cwd != "/" else (pabs.lstrip("/") or "/")
+        if pabs == cwd:
+            return "."
+        if pabs.startswith(cwd.rstrip("/") + "/"):
+            return pabs[len(cwd.rstrip("/")) + 1 :]
+        return pabs
+
+    for _ in range(rnd.randint(3, 7)):
+        x = rnd.random()
+        dirs = sorted(k for k, v in model.items() if v is None)
+        if x < 0.35:
+            i = rnd.randrange(2)
+            dest_abs = rnd.choice(dirs + ["/d", "/d/e", "/w/new"])
+            wi = rnd.random() < 0.5
+            target = dest_abs if wi else dest_abs.rstrip("/") + "/" + names[i]
+            placed = flatten(trees[i], target)
+            allp = with_parents({**model, **placed})
+            ok = all(_kind_of(model, k) in (None, "dir" if v is None else "file") for k, v in placed.items())
+            ok = ok and all(_kind_of(model, k) in (None, "dir") for k in set(allp) - set(placed))
+            if not ok:
+                continue
+            sp = spell(dest_abs)
+            ops.append(["upload", i, sp, wi])
+            model = allp
+            if rnd.random() < 0.35 and target != "/" and not (cwd == target or cwd.startswith(target.rstrip("/") + "/")):
+                # churn: what was just placed is removed and placed again over the same connection
+                tsp = sp if wi else (sp.rstrip("/") + "/" + names[i])
+                ops.append(["remove", tsp, rnd.random() < 0.7])
+                model = {k: v for k, v in model.items() if not (k == target or k.startswith(target.rstrip("/") + "/"))}
+                ops.append(["upload", i, sp, wi])
+                model = with_parents({**model, **placed})
+        elif x < 0.6:
+            cands = [k for k in model if k != "/" and not (cwd == k or cwd.startswith(k + "/"))]
+            if not cands:
+                continue
+            pth = rnd.choice(sorted(cands))
+            ops.append(["remove", spell(pth), rnd.random() < 0.5])
+            model = {k: v for k, v in model.items() if not (k == pth or k.startswith(pth + "/"))}
+        elif x < 0.75:
+            base = rnd.choice(dirs)
+            pth = base.rstrip("/") + "/" + rnd.choice(["m", "m/n", "d", "folder1"])
+            if any(_kind_of(model, q) == "file" for q in with_parents({pth: None})):
+                continue
+            sp = spell(pth)
+            ops.append(["mkdir", sp, rnd.random() < 0.5])
+            if rnd.random() < 0.3 and pth not in model and not (cwd == pth or cwd.startswith(pth + "/")):
+                ops.append(["remove", sp, rnd.random() < 0.7])
+                ops.append(["mkdir", sp, rnd.random() < 0.5])
+            model = with_parents({**model, pth: None})
+        elif x < 0.9:
+            cwd = rnd.choice(dirs)
+            ops.append(["cd", cwd])
+        else:
+            ops.append(["list", spell(rnd.choice(dirs))])
+    return {"seed": seed, "kind": "sequence", "trees": trees, "names": names, "ops": ops, "block": rnd.choice([7, 64, 8192]), "no_mlsx": rnd.random() < 0.35, "tree": {}, "dest": "seq", "cwd": "/", "write_into": False, "srcname": "src"}
+
+
+def gen_unreadable(seed):
+    """download of a tree in which one listed entry may not be read: an identical copy is
+    impossible, so the operation must fail - it must not return normally with an incomplete copy"""
+    rnd = random.Random(seed * 5237 + 13)
+    tree = gen_tree(rnd)
+    flat = [k for k in flatten(tree, "/r/src") if k != "/r/src"]
+    if not flat:
+        tree = {"a": b"x"}
+        flat = ["/r/src/a"]
+    return {"seed": seed, "kind": "download_unreadable", "tree": tree, "deny": rnd.choice(sorted(flat)), "srcname": "src", "dest": "", "write_into": rnd.random() < 0.5, "cwd": "/", "block": 64, "no_mlsx": rnd.random() < 0.3}
+
+
 class NoMlsxServer(aioftp.Server):
     def __init__(self, *a, **kw):
         super().__init__(*a, **kw)
@@ -113,7 +199,10 @@ def run_case(case):
         scenario.apply_net(world.net, net)
         cls = NoMlsxServer if case.get("no_mlsx") else aioftp.Server
         spy = simfs.make_spy(aioftp.MemoryPathIO, world.fsctl)
-        server = cls([aioftp.User()], path_io_factory=spy, block_size=64, wait_future_timeout=20.0)
+        user = aioftp.User()
+        if case["kind"] == "download_unreadable":
+            user = aioftp.User(permissions=[aioftp.Permission("/"), aioftp.Permission(case["deny"], readable=False)])
+        server = cls([user], path_io_factory=spy, block_size=64, wait_future_timeout=20.0)
         world.server = server
         world.backend_cls = spy
         client = aioftp.Client(path_io_factory=aioftp.MemoryPathIO)
@@ -162,6 +251,66 @@ def run_case(case):
                     extra = sorted(set(got) - set(want))[:4]
                     diff = [k for k in want if k in got and got[k] != want[k]][:3]
                     viol.append({"clause": "upload-placed-elsewhere", "subject": subject, "detail": f"upload('/local/{srcname}', {case['dest']!r}, write_into={case['write_into']}) from cwd {cwd}: expected under {target!r}; missing {miss}, unexpected {extra}, different content {diff}"})
+            elif kind == "sequence":
+                model = dict(before)
+                mcwd = "/"
+                for i, t in enumerate(case["trees"]):
+                    simfs.mem_populate(client.path_io.fs, {k: v for k, v in with_parents(flatten(t, "/local/" + case["names"][i])).items() if k != "/"})
+                for n, op in enumerate(case["ops"]):
+                    what = None
+                    if op[0] == "upload":
+                        _, i, dest, wi = op
+                        await client.upload("/local/" + case["names"][i], dest, write_into=wi, block_size=case["block"])
+                        dest_abs = absolutize(mcwd, dest)
+                        target = dest_abs if wi else dest_abs.rstrip("/") + "/" + case["names"][i]
+                        model = with_parents({**model, **flatten(case["trees"][i], target)})
+                        what = f"upload('/local/{case['names'][i]}', {dest!r}, write_into={wi})"
+                    elif op[0] == "remove":
+                        pabs = absolutize(mcwd, op[1])
+                        await client.remove(op[1] if op[2] else pathlib.PurePosixPath(op[1]))
+                        model = {k: v for k, v in model.items() if not (k == pabs or k.startswith(pabs.rstrip("/") + "/"))}
+                        what = f"remove({op[1]!r} as {'str' if op[2] else 'PurePosixPath'})"
+                    elif op[0] == "mkdir":
+                        pabs = absolutize(mcwd, op[1])
+                        await client.make_directory(op[1] if op[2] else pathlib.PurePosixPath(op[1]))
+                        model = with_parents({**model, pabs: None})
+                        what = f"make_directory({op[1]!r})"
+                    elif op[0] == "cd":
+                        await client.change_directory(op[1])
+                        mcwd = op[1]
+                        what = f"change_directory({op[1]!r})"
+                    elif op[0] == "list":
+                        pabs = absolutize(mcwd, op[1])
+                        got = sorted(absolutize(mcwd, str(p)) for p, inf in await client.list(op[1], recursive=True))
+                        want = sorted(k for k in model if k != pabs and k.startswith(pabs.rstrip("/") + "/"))
+                        if got != want:
+                            viol.append({"clause": "recursive-listing-differs", "subject": "sequence", "detail": f"operation {n} list({op[1]!r}, recursive=True) after {case['ops'][:n]}: missing {sorted(set(want) - set(got))[:4]}, unexpected {sorted(set(got) - set(want))[:4]}"})
+                        continue
+                    got = remote_snapshot()
+                    if got != model:
+                        miss = sorted(set(model) - set(got))[:4]
+                        extra = sorted(set(got) - set(model))[:4]
+                        diff = [k for k in model if k in got and got[k] != model[k]][:3]
+                        viol.append({"clause": "sequence-diverged", "subject": op[0], "detail": f"operation {n} {what} on the same connection after {case['ops'][:n]} (cwd {mcwd}): remote tree missing {miss}, unexpected {extra}, different content {diff}"})
+                        break
+                info["seq_ops"] = len(case["ops"])
+            elif kind == "download_unreadable":
+                remote = with_parents(flatten(tree, "/r/src"))
+                world.populate({k: v for k, v in remote.items() if k not in before and k != "/"})
+                simfs.mem_populate(client.path_io.fs, {"/ldst": None})
+                lbefore = local_snapshot()
+                try:
+                    await client.download("/r/src", "/ldst", write_into=case["write_into"], block_size=case["block"])
+                    info["returned"] = True
+                except aioftp.StatusCodeError as e:
+                    info["returned"] = False
+                    info["refused"] = str(e.received_codes)
+                if info["returned"]:
+                    target = "/ldst" if case["write_into"] else "/ldst/src"
+                    want = with_parents({**lbefore, **flatten(tree, target)})
+                    got = local_snapshot()
+                    if got != want:
+                        viol.append({"clause": "download-incomplete-without-error", "subject": subject, "detail": f"download('/r/src') with {case['deny']!r} unreadable returned normally, local copy lacks {sorted(set(want) - set(got))[:4]}"})
             elif kind in ("download", "download_file", "list", "remove"):
                 rsrc = "/r/" + srcname
                 if kind == "download_file":
@@ -239,7 +388,7 @@ def run_case(case):
             "events": world.net.seq,
             "steps": world.loop.steps,
             "outcome": world.outcome,
-            "counters": {f"kind.{kind}": 1},
+            "counters": {f"kind.{kind}": 1, "probe.operations_in_one_connection_sequences": info.get("seq_ops", 0), "probe.download_refused_for_unreadable_entry": int(info.get("returned") is False)},
             "groups": {"dest": {case["dest"] or "''": 1}, "cwd": {cwd: 1}},
             "violations": out,
         }
@@ -265,6 +414,15 @@ def minimise(case, violation):
 
     cur = copy.deepcopy(case)
     cur.pop("want_sample", None)
+    if cur.get("kind") == "sequence":
+        i = len(cur["ops"]) - 1
+        while i >= 0:
+            trial = copy.deepcopy(cur)
+            del trial["ops"][i]
+            if bad(trial):
+                cur = trial
+            i -= 1
+        return cur, violation
 
     def shrink(t):
         # try removing each entry, recursively
@@ -306,6 +464,8 @@ def main(argv=None):
         doc = json.load(open(a.replay))
         c = doc["case"]
         c["tree"] = _untree(c["tree"])
+        if "trees" in c:
+            c["trees"] = [_untree(t) for t in c["trees"]]
         r = run_case(c)
         hit = [v for v in r["violations"] if v["clause"] == doc["clause"]]
         if hit:
@@ -320,7 +480,17 @@ def main(argv=None):
     deadline = time.time() + (a.budget or (60 if quick else 1200))
     n = 3000 if quick else 400000
     with common.Pool() as pool:
-        cases = common.with_samples((gen_case(a.seed * 1_000_000 + i) for i in range(n)), 2)
+        def gen():
+            for i in range(n):
+                sd = a.seed * 1_000_000 + i
+                if i % 5 == 3:
+                    yield gen_sequence(sd)
+                elif i % 10 == 7:
+                    yield gen_unreadable(sd)
+                else:
+                    yield gen_case(sd)
+
+        cases = common.with_samples(gen(), 2)
         for case, res in pool.map(run_case, cases, deadline=deadline, chunksize=8):
             ev.add_run(res)
             for v in res["violations"]:
